@@ -18,6 +18,8 @@ inline void use()
 	table.TryUpdate(size_t(0), std::move(row3));
 	table.Remove([] (Table::ConstRowReference) { return true; });   // pvRemove(filter)
 	{ Table copy(table); }                // pvFill
+	table.Assign(table.GetBegin(), table.GetEnd());   // pvAssign -> pvFilterRaws
+	table.Remove(table.GetBegin(), table.GetEnd());   // pvRemove(range) -> pvFilterRaws
 	table.Remove(size_t(0), true);        // Remove(rowNumber): pvDestroyRaw(pvExtractRaw(..))
 	table.Clear();                        // pvDestroyRaws -> pvDeallocateFreeRaws
 	Table table2(std::move(table));       // DataTable(DataTable&&)
